@@ -118,6 +118,10 @@ type Server struct {
 	// the command (cluster redirections). keys are resolved by Keys.
 	Route func(s *Server, cs *ConnState, argv [][]byte) []byte
 
+	// RouteTxn, when set, validates a whole transaction at EXEC (cluster: all keys of
+	// all queued commands must share one slot).
+	RouteTxn func(s *Server, cs *ConnState, queued [][][]byte) []byte
+
 	// Extra lets a harness add or override commands. Return nil to fall through.
 	Extra func(s *Server, cs *ConnState, argv [][]byte) []byte
 
@@ -524,6 +528,15 @@ func (s *Server) dispatch(cs *ConnState, r *Req) []byte {
 			// aborts the whole transaction (nothing of it runs)
 			for _, qr := range q {
 				if rep := s.Route(s, cs, qr.Argv); rep != nil {
+					return rep
+				}
+			}
+			if s.RouteTxn != nil {
+				argvs := make([][][]byte, len(q))
+				for i, qr := range q {
+					argvs[i] = qr.Argv
+				}
+				if rep := s.RouteTxn(s, cs, argvs); rep != nil {
 					return rep
 				}
 			}
